@@ -13,7 +13,7 @@ import (
 )
 
 func init() {
-	register("C02", "Structural clauses behind incremental minimality, decided for every pair of stats: the equality test that suppresses a change compares every identity field of types.Stat (the field set is taken from go/types, so a new field is an obligation) field-by-field between its two operands and each 'different' outcome forces the result false; with differencing disabled the test is false before any comparison; on the modify arm the change callback is unreachable when the test said same and reachable otherwise, with operands (destination entry, filtered clone of source entry); both walkers build stats with one constructor; content is requested only on the regular, non-link arm. Device numbers are decoded from the raw device word bit for bit as on the reference tree (bit-level reading of the decoding helpers). Does not decide histories, inode preservation or the hard-link timing exception.", runC02)
+	register("C02", "Structural clauses behind incremental minimality, decided for every pair of stats: the equality test that suppresses a change compares every identity field of types.Stat (the field set is taken from go/types, so a new field is an obligation) field-by-field between its two operands and each 'different' outcome forces the result false; with differencing disabled the test is false before any comparison; on the modify arm the change callback is unreachable when the test said same and reachable otherwise, with operands (destination entry, filtered clone of source entry); both walkers build stats with one constructor; content is requested only on the regular, non-link arm. Device numbers are decoded from the raw device word bit for bit as on the reference tree (bit-level reading of the decoding helpers). The file ids both ends key their tables by are the zero-based positions in the STAT sequence (counter from 0, one increment per announced entry, registration with the pre-increment value; shared with C06/C07): two ends that agree with each other on any other numbering hand a conforming peer a neighbouring file's bytes. Does not decide histories, inode preservation or the hard-link timing exception.", runC02)
 }
 
 func runC02(c *Ctx) {
@@ -38,6 +38,9 @@ func runC02(c *Ctx) {
 	// C01/C09/C17)
 	c.R.Rule("R02.7", "the stat of every non-directory carries its on-disk size, recorded after the inode bookkeeping")
 	statSizeAlways(c, "R02.7")
+	// the content requested for a changed entry is that entry's: ids are
+	// zero-based STAT positions on both ends (shared with C06/C07)
+	idNumbering(c, "R02.10", "R02.11", "R02.12")
 }
 
 // identity fields: all exported fields of types.Stat minus these, with reason.
